@@ -315,6 +315,7 @@ pub fn read_plan_strategy(body_len: usize) -> BoxedStrategy<ReadPlan> {
         }),
         2 => proptest::collection::vec(1usize..big.max(2), 1..6).prop_map(ReadPlan::Sizes),
         1 => proptest::collection::vec(prop_oneof![Just(0usize), Just(1usize), Just(1024usize), Just(1025usize)], 1..5).prop_map(ReadPlan::Sizes),
+        2 => (0u8..6).prop_map(move |how| if how == 3 && body_len > 20000 { ReadPlan::Std { how: 0 } } else { ReadPlan::Std { how } }),
     ]
     .boxed()
 }
@@ -395,6 +396,7 @@ pub fn consumption_strategy(len: usize) -> BoxedStrategy<ReadPlan> {
         2 => (1usize..len.max(2), 1usize..4).prop_map(|(a, k)| ReadPlan::Sizes(vec![a; k])),
         2 => prop_oneof![Just(4096usize), Just(1usize), Just(1024usize)].prop_map(move |buf| ReadPlan::ToEof { buf: if len > 20000 { buf.max(512) } else { buf }, extra: 1 }),
         1 => Just(ReadPlan::Touch { calls: 1 }),
+        1 => (0u8..6).prop_map(move |how| if how == 3 && len > 20000 { ReadPlan::Std { how: 0 } } else { ReadPlan::Std { how } }),
     ]
     .boxed()
 }
